@@ -86,10 +86,9 @@ static inline long nd_long(void) { return (long)verif_nd_next("long"); }
 static inline int nd_bool(void) { return verif_nd_next("bool") != 0; }
 static inline float nd_float(void)
 {
-    unsigned u = (unsigned)verif_nd_next("float");
-    float f;
-    __builtin_memcpy(&f, &u, 4);
-    return f;
+    union { unsigned u; float f; } c;
+    c.u = (unsigned)verif_nd_next("float");
+    return c.f;
 }
 #else
 static inline int nd_int(void) { int v = nondet_int(); return v; }
@@ -102,9 +101,9 @@ static inline float nd_float(void)
 {
     /* drawn as raw bits so that the replay script is exact */
     unsigned v = nondet_uint();
-    float f;
-    __builtin_memcpy(&f, &v, 4);
-    return f;
+    union { unsigned u; float f; } c;
+    c.u = v;
+    return c.f;
 }
 #endif
 
